@@ -56,7 +56,7 @@ package pot
 //@   --  the sort needs no restating; restating its forall-exists pairs only feeds a matching loop)
 //@   loop 1 invariant forall k :: 0 <= k && k <= rangeindex ==> CONTRIBOK(ll, ll.levels[k])
 //@   loop 2 invariant forall k :: 0 <= k && k < rangeindex + 1 ==> CONTRIBOK(ll, ll.levels[k])
-//@   loop 2 invariant CONTRIBOK(ll, pot)
+//@   loop 2 invariant CONTRIBOK(ll, ll.levels[rangeindex + 1])
 //@   loop 3 invariant forall k :: 0 <= k && k < len(ll.levels) ==> CONTRIBOK(ll, ll.levels[k])
 //@   loop 3 invariant prevLevel == ite(rangeindex < 0, 0, ll.levels[rangeindex].Level)
 //@   loop 3 invariant forall k :: 0 <= k && k <= rangeindex ==>
